@@ -1468,3 +1468,232 @@ def fan_rays(rng, spec, n):
         pts.append((r * math.cos(t), r * math.sin(t)))
     rng.shuffle(pts)
     return [0.0] * len(pts), [h] * len(pts), [p[0] for p in pts], [p[1] for p in pts]
+
+
+# ----------------------------------------------------------------------------------------------
+# multi-item requests: one call that analyses several (field, wavelength) pairs.  The entry for one pair must not
+# depend on which pairs were analysed before it IN THE SAME CALL (nor on their order): it is the entry of the
+# request that asks for that pair alone.
+# ----------------------------------------------------------------------------------------------
+def chromatic_specs():
+    """fixed corpus: refracting lenses of catalogue glass (lateral AND axial colour) with off-axis fields, several
+    wavelengths; infinite / finite object, with and without vignetting factors, stop in front / inside"""
+    inf = float('inf')
+    wl = [[0.4861, False], [0.5876, True], [0.6563, False]]
+    out = [
+        {'name': 'chromatic-singlet', 'object_thickness': inf, 'aperture': ['EPD', 8.0], 'field_type': 'angle',
+         'fields': [[0.0, 0.0, 0.0, 0.0], [7.0, 0.0, 0.0, 0.0]], 'wavelengths': wl, 'telecentric': False,
+         'surfaces': [{'type': 'standard', 'radius': 55.0, 'thickness': 4.0, 'is_stop': True,
+                       'material': ['glass', 'N-SF5', 'schott']},
+                      {'type': 'standard', 'radius': -70.0, 'thickness': 45.0, 'material': 'air'}]},
+        {'name': 'chromatic-singlet-finite-vignetted', 'object_thickness': 150.0, 'aperture': ['objectNA', 0.03],
+         'field_type': 'object_height',
+         'fields': [[6.0, 0.0, 0.1, 0.2], [0.0, 0.0, 0.0, 0.0], [3.0, 0.0, 0.0, 0.1]],
+         'wavelengths': [[0.6563, False], [0.45, True]], 'telecentric': False,
+         'surfaces': [{'type': 'standard', 'radius': 60.0, 'thickness': 5.0, 'material': ['glass', 'N-BK7', 'schott']},
+                      {'type': 'standard', 'radius': -45.0, 'thickness': 6.0, 'material': 'air'},
+                      {'type': 'standard', 'radius': inf, 'thickness': 70.0, 'is_stop': True, 'material': 'air'}]},
+        {'name': 'chromatic-air-spaced-pair', 'object_thickness': inf, 'aperture': ['EPD', 10.0],
+         'field_type': 'angle', 'fields': [[5.0, 0.0, 0.0, 0.0], [0.0, 0.0, 0.0, 0.0], [2.5, 0.0, 0.0, 0.0]],
+         'wavelengths': [[0.7, False], [0.4861, False], [0.55, True]], 'telecentric': False,
+         'surfaces': [{'type': 'standard', 'radius': 60.0, 'thickness': 5.0, 'material': ['glass', 'N-BK7', 'schott']},
+                      {'type': 'standard', 'radius': -60.0, 'thickness': 2.0, 'material': 'air'},
+                      {'type': 'standard', 'radius': inf, 'thickness': 2.0, 'is_stop': True, 'material': 'air'},
+                      {'type': 'standard', 'radius': -50.0, 'conic': -0.4, 'thickness': 3.0,
+                       'material': ['glass', 'F2', 'schott']},
+                      {'type': 'standard', 'radius': -90.0, 'thickness': 80.0, 'material': 'air'}]},
+    ]
+    for s in out:
+        s['variant'] = 'chromatic: ' + s['name']
+    return out
+
+
+def _pair_entry(cls, obj, fi, wi, field, w):
+    """the part of the stored result of `obj` that belongs to the pair (field number fi, wavelength number wi)"""
+    if cls in ('Wavefront', 'OPDFan', 'SpotDiagram'):
+        return obj.data[fi][wi]
+    if cls == 'RmsWavefrontErrorVsField':
+        return {'rms': obj._wavefront_error[:, wi], 'data': [row[wi] for row in obj.data]}
+    if cls in ('RayFan', 'PupilAberration'):
+        return obj.data[f'{field}'][f'{w}']
+    if cls in ('Distortion', 'FieldCurvature'):
+        return obj.data[wi]
+    if cls in ('GeometricMTF', 'FFTMTF'):
+        return obj.mtf[fi]
+    if cls == 'EncircledEnergy':
+        return obj.data[fi]
+    raise KeyError(cls)
+
+
+def _flat(v, out=None):
+    out = [] if out is None else out
+    if isinstance(v, dict):
+        for k in sorted(v, key=str):
+            _flat(v[k], out)
+    elif isinstance(v, (list, tuple)):
+        for x in v:
+            _flat(x, out)
+    elif v is not None:
+        out.append(np.ravel(np.asarray(v, dtype=float)))
+    return out
+
+
+def _max_abs_difference(a, b):
+    """largest |a - b| over all numbers of two stored entries (None when the shapes differ)"""
+    try:
+        fa, fb = np.concatenate(_flat(a)), np.concatenate(_flat(b))
+        if fa.shape != fb.shape:
+            return None
+        with np.errstate(all='ignore'):
+            d = np.abs(fa - fb)
+        return float(np.nanmax(d)) if np.isfinite(d).any() else None
+    except Exception:   # noqa
+        return None
+
+
+# class -> (axes of the request that are lists, constructor)
+def _make_request(cls, optic, fields, ws, primary):
+    import optiland.analysis as A
+    from optiland import mtf as Mt
+    from optiland import wavefront as W
+    if cls == 'Wavefront':
+        return W.Wavefront(optic, fields, ws, 4, 'hexapolar')
+    if cls == 'OPDFan':
+        return W.OPDFan(optic, fields, ws, 9)
+    if cls == 'RmsWavefrontErrorVsField':
+        return A.RmsWavefrontErrorVsField(optic, 3, ws, 3)
+    if cls == 'SpotDiagram':
+        return A.SpotDiagram(optic, fields, ws, 3, 'hexapolar')
+    if cls == 'RayFan':
+        return A.RayFan(optic, fields, ws, 9)
+    if cls == 'PupilAberration':
+        return A.PupilAberration(optic, fields, ws, 7)
+    if cls == 'Distortion':
+        return A.Distortion(optic, ws, 7)
+    if cls == 'FieldCurvature':
+        return A.FieldCurvature(optic, ws, 5)
+    if cls == 'GeometricMTF':
+        return Mt.GeometricMTF(optic, fields, primary, 9, 'uniform', 8)
+    if cls == 'FFTMTF':
+        return Mt.FFTMTF(optic, fields, primary, 16, 32)
+    if cls == 'EncircledEnergy':
+        return A.EncircledEnergy(optic, fields, primary, 3, 'hexapolar', 8)
+    raise KeyError(cls)
+
+
+REQUEST_CLASSES = {
+    # class: (takes a list of fields, takes a list of wavelengths, entry is relative to a reference wavelength)
+    'Wavefront': (True, True, False), 'OPDFan': (True, True, False), 'RmsWavefrontErrorVsField': (False, True, False),
+    'SpotDiagram': (True, True, False), 'RayFan': (True, True, True), 'PupilAberration': (True, True, False),
+    'Distortion': (False, True, False), 'FieldCurvature': (False, True, False),
+    'GeometricMTF': (True, False, False), 'FFTMTF': (True, False, False), 'EncircledEnergy': (True, False, False),
+}
+
+
+def request_fields_wavelengths(rng, spec):
+    """the (field, wavelength) lists a multi-item request is made of: the lens' own fields (normalised; the order
+    of the spec, which need not be ascending) plus one skew field, the lens' own wavelengths plus two more lines"""
+    maxf = max(math.hypot(f[0], f[1]) for f in spec['fields'])
+    fields = []
+    for f in spec['fields']:
+        fields.append((f[1] / maxf if maxf else 0.0, f[0] / maxf if maxf else 0.0))
+    if maxf:
+        fields.append((round(rng.uniform(0.2, 0.6), 3), round(rng.uniform(0.3, 0.7), 3)))
+    own = [w for w, _ in spec['wavelengths']]
+    ws = list(own)
+    for w in (0.6563, 0.4861, 0.5876, 0.45):
+        if len(ws) >= max(3, len(own)):
+            break
+        if all(abs(w - v) > 1e-3 for v in ws):
+            ws.append(w)
+    primary = [w for w, p in spec['wavelengths'] if p][0]
+    return fields, ws, primary
+
+
+def request_decomposition(rng, spec, build_fn, classes=None):
+    """For every analysis class that takes a list of fields and/or wavelengths: ONE lens object serves the request
+    for all pairs, in the given order and in a second order (reversed / rotated lists); a fresh lens serves the
+    request for each pair ALONE.  The stored entry of every pair must be bit-identical in all of them.
+    Returns (violations, stats)."""
+    import copy
+    fields, ws, primary = request_fields_wavelengths(rng, spec)
+    orders_f = [fields, fields[::-1]]
+    orders_w = [ws, ws[1:] + ws[:1], ws[::-1]]
+    viol = []
+    stats = {'classes': {}, 'pairs_compared': 0, 'raised': 0, 'requests': 0, 'fields': len(fields),
+             'wavelengths': len(ws), 'off_axis_pairs_not_first_in_request': 0}
+    shared = build_fn(spec)
+
+    def make(optic, cls, fl, wl):
+        with warnings.catch_warnings():
+            warnings.simplefilter('ignore')
+            old = np.seterr(all='ignore')
+            try:
+                stats['requests'] += 1
+                return _make_request(cls, optic, fl, wl, primary)
+            except Exception as e:   # noqa
+                stats['raised'] += 1
+                return None
+            finally:
+                np.seterr(**old)
+
+    for cls in (classes or list(REQUEST_CLASSES)):
+        by_f, by_w, relative = REQUEST_CLASSES[cls]
+        fl0 = fields if by_f else [None]
+        wl0 = ws if by_w else [primary]
+        # the pair alone (for results that are stated relative to the reference wavelength: the pair and the
+        # reference), each on a lens that has not been used for anything else
+        alone = {}
+        for fi, f in enumerate(fl0):
+            for w in wl0:
+                sub_w = [w] if not relative or w == primary else [primary, w]
+                sub_w = sub_w if primary in ws or not relative else None
+                if sub_w is None:
+                    continue
+                obj = make(build_fn(spec), cls, [f] if by_f else fields, sub_w)
+                if obj is None:
+                    continue
+                try:
+                    alone[(fi, w)] = copy.deepcopy(_pair_entry(cls, obj, 0, sub_w.index(w), f, w))
+                except Exception:   # noqa
+                    stats['raised'] += 1
+        if not alone:
+            continue
+        variants = [(orders_f[0], orders_w[0])]
+        if by_w and len(ws) > 1:
+            variants.append((orders_f[0], orders_w[1]))
+        if by_f and len(fields) > 1:
+            variants.append((orders_f[1], orders_w[2] if by_w else orders_w[0]))
+        for fl, wl in variants:
+            req_f = fl if by_f else fields
+            req_w = wl if by_w else [primary]
+            obj = make(shared, cls, req_f, req_w)
+            if obj is None:
+                continue
+            for (fi0, w), ref in alone.items():
+                f = fl0[fi0]
+                fi = req_f.index(f) if by_f else 0
+                wi = req_w.index(w)
+                try:
+                    got = _pair_entry(cls, obj, fi, wi, f, w)
+                except Exception:   # noqa
+                    stats['raised'] += 1
+                    continue
+                stats['pairs_compared'] += 1
+                stats['classes'][cls] = stats['classes'].get(cls, 0) + 1
+                if wi > 0 and (f is None or f != (0.0, 0.0)):
+                    stats['off_axis_pairs_not_first_in_request'] += 1
+                d = first_diff(canon(ref), canon(got))
+                if d:
+                    viol.append({'kind': 'entry-depends-on-rest-of-request', 'cls': cls,
+                                 'max_abs_difference': _max_abs_difference(ref, got),
+                                 'op': {'op': 'request', 'cls': cls},
+                                 'pair': {'field': f, 'wavelength': w},
+                                 'request': {'fields': req_f if by_f else 'fixed by the class', 'wavelengths': req_w},
+                                 'position_in_request': {'field': fi, 'wavelength': wi},
+                                 'compared_with': 'the same pair requested alone on a fresh lens', 'diff': d,
+                                 'spec': spec})
+                    break
+            if len(viol) > 10:
+                return viol, stats
+    return viol, stats
